@@ -100,11 +100,15 @@ def flagged(stderr: str):
     return out
 
 
+# the directive line may carry trailing white space or a comment like any other line
+PRAGMA_DECO = ["", "", " // teal", "  ", "\t// version", " //"]
+
+
 def check_version(case, skip_global=False):
     name, field, v = case["name"], case["field"], case["version"]
     op = rops.OPS[base(name)]
     text, vals, fld, fam = op_line(name, field)
-    lines = ([f"#pragma version {v}"] if v is not None else []) + [text, "l1:", "l2:", "int 1"]
+    lines = ([f"#pragma version {v}" + PRAGMA_DECO[(len(text) + (v or 0)) % len(PRAGMA_DECO)]] if v is not None else []) + [text, "l1:", "l2:", "int 1"]
     src = "\n".join(lines) + "\n"
     try:
         teal = adapter.parse(src)
@@ -163,7 +167,7 @@ def mode_case(draw):
 def check_mode(case):
     from tealer.utils.teal_enums import ExecutionMode, ContractType
 
-    lines = ["#pragma version 8"]
+    lines = ["#pragma version 8" + PRAGMA_DECO[(len(case["names"]) + len(case["dead"])) % len(PRAGMA_DECO)]]
     for nm in case["names"]:
         lines.append(op_line(nm)[0])
     dead = case.get("dead") or []
@@ -234,7 +238,7 @@ def check_cost(case, zero_cost_pseudo=True):
     v = case["version"]
     lines = []
     if case["pragma"]:
-        lines.append(f"#pragma version {v}")
+        lines.append(f"#pragma version {v}" + PRAGMA_DECO[(len(case["rows"]) + v) % len(PRAGMA_DECO)])
     total = 0
     nt = False
     body = []
